@@ -1,6 +1,8 @@
 """C16 - inferred sorts and bit-widths are never wrong."""
 import re
 
+from hypothesis import strategies as st
+
 from vlib import env, gen_typed, guard, model, runner
 from vlib.gen_typed import sort_from_plain
 
@@ -205,7 +207,10 @@ def shard(ctx, acc):
             acc.add_extra(k, v)
         acc.case(dict(script=text), nontrivial=nt, classes=sorted(s.features), sample=dict(script=text[:700]))
 
-    runner.hyp_run(ctx, gen_typed.script(), body, ctx.share(total))
+    # half of the scripts with unusual but legal symbol names (quoted symbols, names that
+    # look like generated ones): names must not influence the inference
+    strat = st.one_of(gen_typed.script(), gen_typed.script(dict(trap_names=True)))
+    runner.hyp_run(ctx, strat, body, ctx.share(total))
     if not ctx.quick and ctx.shard == 0:
         soundness_sample(ctx, acc)
 
